@@ -25,6 +25,28 @@ READERS = {   # publication header -> (sender in RpcHandler, handler called by r
 }
 
 
+def rule_snapshot_when_authorized(P, R, r3):
+    """check_instance transfers the peer's state & modes and process table exactly when the peer is AUTHORIZED (an
+    INCONSISTENT or refused peer is never admitted - shared with C13), and before the result is pushed."""
+    ci = P.unit('SupervisorProxy.check_instance')
+    fm = factmap(ci)
+    order = [(call_text(c), c) for c in sorted((c for c in own_nodes(ci.node) if isinstance(c, ast.Call)),
+                                               key=lambda c: (c.lineno, c.col_offset))]
+    names = [t for t, c in order]
+    auth = ('authorization == AuthorizationTypes.AUTHORIZED', True)
+    ok = True
+    for t in ('self._transfer_states_modes', 'self._transfer_process_info'):
+        cs = [c for n, c in order if n == t]
+        ok = ok and len(cs) == 1 and {tuple(f) for f in fm.at(cs[0])} == {auth}
+    push = [c for n, c in order if n.endswith('.push_notification')]
+    ok = ok and len(push) == 1 and not fm.at(push[0]) and \
+        names.index('self._transfer_process_info') < names.index(call_text(push[0])) and \
+        names.index('self._transfer_states_modes') < names.index('self._transfer_process_info')
+    R.check(r3, ok, 'state & modes and process snapshot are posted before the authorization result',
+            'snapshot|check_instance', ci.loc(), 'check_instance does not call _transfer_states_modes and '
+            '_transfer_process_info (under AUTHORIZED) before pushing the AUTHORIZATION notification')
+
+
 def run(P, R):
     # ---------------------------------------------------------------- R1
     r1 = R.rule('R1', 'pairing', 'in SupervisorListener each of the seven process-related handlers applies the event '
@@ -51,6 +73,10 @@ def run(P, R):
             ok = ok and not rebound
         R.check(r1, ok, '%s applies and publishes the same payload on the same paths' % h, 'pair|%s' % h, u.loc(),
                 'SupervisorListener.%s does not pair %s and %s on the same payload and paths (%s)' % (h, loc, pub, why))
+
+    # (the local consumer must not alter the payload that is published after it: same obligation as C10.R3)
+    from . import shared as _shared
+    _shared.forced_payload_copied(P, R, r1)
 
     # ---------------------------------------------------------------- R2
     r2 = R.rule('R2', 'writer/reader table agreement', 'every PublicationHeaders member has exactly one sender in '
@@ -117,23 +143,7 @@ def run(P, R):
                 'modes and the process information BEFORE the AUTHORIZATION notification is pushed (ALL_INFO must be '
                 'handled while the peer is still CHECKING); ALL_INFO is loaded through load_processes for every entry; '
                 'the handshake is triggered when a first tick moves a peer from STOPPED to CHECKING', 7)
-    ci = P.unit('SupervisorProxy.check_instance')
-    fm = factmap(ci)
-    order = [(call_text(c), c) for c in sorted((c for c in own_nodes(ci.node) if isinstance(c, ast.Call)),
-                                               key=lambda c: (c.lineno, c.col_offset))]
-    names = [t for t, c in order]
-    auth = ('authorization == AuthorizationTypes.AUTHORIZED', True)
-    ok = True
-    for t in ('self._transfer_states_modes', 'self._transfer_process_info'):
-        cs = [c for n, c in order if n == t]
-        ok = ok and len(cs) == 1 and {tuple(f) for f in fm.at(cs[0])} == {auth}
-    push = [c for n, c in order if n.endswith('.push_notification')]
-    ok = ok and len(push) == 1 and not fm.at(push[0]) and \
-        names.index('self._transfer_process_info') < names.index(call_text(push[0])) and \
-        names.index('self._transfer_states_modes') < names.index('self._transfer_process_info')
-    R.check(r3, ok, 'state & modes and process snapshot are posted before the authorization result',
-            'snapshot|check_instance', ci.loc(), 'check_instance does not call _transfer_states_modes and '
-            '_transfer_process_info (under AUTHORIZED) before pushing the AUTHORIZATION notification')
+    rule_snapshot_when_authorized(P, R, r3)
     tp = P.unit('SupervisorProxy._transfer_process_info')
     ok = any("supvisors.get_all_local_process_info" in ast.unparse(c) for c in own_nodes(tp.node) if isinstance(c, ast.Call)) \
         and any(ast.unparse(a.value) == '(NotificationHeaders.ALL_INFO.value, all_info)' for a in own_nodes(tp.node)
